@@ -5,7 +5,9 @@ import (
 	"fmt"
 	"math/big"
 	"strings"
+	"sync"
 	"testing"
+	"time"
 
 	"github.com/bartossh/Computantis/src/accountant"
 	"github.com/bartossh/Computantis/src/spice"
@@ -494,9 +496,99 @@ func c07Run(rt *rapid.T, p c07Plan, seed string) (*lm, []string, error) {
 
 var c07EvalC02 bool
 
+// c07RealTrigger: truncation through the node's own trigger (Config.Truncate = 2000: the background loop truncates once
+// the weight exceeds 3000) while proposals keep arriving from two goroutines; afterwards the ledger invariants and
+// every wallet's balance are judged against the reference over all vertices.
+func c07RealTrigger(t *testing.T, st *stats) {
+	w, err := sim.NewWorld(sim.Config{Nodes: 1, Users: 4, GenesisC: 100000, Seed: fmt.Sprintf("c07-real-%d", shard()), Truncate: 2000})
+	if err != nil {
+		st.note("real trigger: %v", err)
+		return
+	}
+	defer w.Close()
+	for i := 0; i < 40; i++ {
+		w.ProposeTx(0, w.MakeTx(0, 1+i%4, spice.New(uint64(10+i), uint64(i)), 0))
+	}
+	for i := 0; i < 30; i++ {
+		w.ProposeTx(0, w.MakeTx(1+i%4, 1+(i+1)%4, spice.New(1, 500), 0))
+	}
+	var wg sync.WaitGroup
+	errs := make(chan error, 4)
+	for g := 0; g < 2; g++ {
+		wg.Add(1)
+		go func(g int) {
+			defer wg.Done()
+			for i := 0; i < 1550; i++ {
+				r := w.ProposeTx(0, w.MakeTx(1+(i+g)%4, 0, spice.Melange{}, 6))
+				if errors.Is(r.Err, sim.ErrStuck) || sim.IsPanic(r.Err) {
+					errs <- r.Err
+					return
+				}
+			}
+		}(g)
+	}
+	wg.Wait()
+	st.eval(1)
+	st.label("plan:real-trigger")
+	select {
+	case e := <-errs:
+		st.reportOnce("real-trigger-wedged", fmt.Sprintf("proposals racing with the node's own truncation loop: %v", e), map[string]string{"scenario": "real-trigger"})
+		t.Errorf("real trigger wedged")
+		return
+	default:
+	}
+	var snap *sim.Snap
+	for i := 0; i < 400; i++ { // the loop truncates asynchronously after the weight crossed the mark
+		snap, err = w.Snapshot(w.Nodes[0])
+		if err != nil {
+			st.note("real trigger snapshot: %v", err)
+			return
+		}
+		if len(snap.Stored) > 0 {
+			break
+		}
+		time.Sleep(10 * time.Millisecond)
+	}
+	if len(snap.Stored) == 0 {
+		st.note("real trigger: no truncation observed within 4 s (weight %d, next mark %d)", snap.Raw.Weight, snap.Raw.NextWeightTruncate)
+		st.label("real-trigger-not-fired")
+		return
+	}
+	st.nontrivial(fp64("real-trigger", shard(), len(snap.Stored)))
+	st.labelN("real-trigger:vertices-checkpointed", int64(len(snap.Stored)))
+	if w.Nodes[0].Log.FatalCount() > 0 {
+		st.reportOnce("log-fatal", fmt.Sprintf("the truncation loop logged Fatal: %v", w.Nodes[0].Log.Fatals), map[string]string{"scenario": "real-trigger"})
+		t.Errorf("fatal")
+	}
+	all := ref.Union(snap.LiveSet(), snap.StoredSet())
+	for _, k := range w.Wallets {
+		if k.Addr == w.Genesis.Transaction.IssuerAddress {
+			continue
+		}
+		in, out := w.Arch.Flow(all, k.Addr)
+		want := in.Sub(in, out)
+		got, err := w.Balance(0, k.Addr)
+		if err != nil || ref.V(got).Cmp(want) != 0 {
+			if len(snap.Tips()) == 1 {
+				st.reportOnce("balance-changed", fmt.Sprintf("after the node's own truncation (%d vertices checkpointed) the balance of %s is %v (err %v), the reference over all vertices is %s", len(snap.Stored), k.Name, got, err, want), map[string]string{"scenario": "real-trigger"})
+				t.Errorf("balance changed")
+			}
+		}
+	}
+	for h := range snap.Stored {
+		if _, live := snap.Live[h]; live {
+			st.reportOnce("stored-but-still-live", "vertex both live and checkpointed after the node's own truncation", map[string]string{"scenario": "real-trigger"})
+			t.Errorf("live and stored")
+		}
+	}
+}
+
 func TestC07(t *testing.T) {
 	st := newStats(t, "C07", "cases = two-node worlds (A truncates, twin B never does) with a generated region near genesis (proposals at either node, rogue side branches, delayed delivery, boundary amounts), >=1001 filler vertices, the real truncate, optionally a late vertex on an old parent (tip not descending from the cut) and a second truncation after 1001 more vertices, then re-submission of moved vertices/transactions and follow-up proposals/gossip offered to both nodes; oracle = per-tip per-address balance equality across the cut, by-hash reads identical, moved == newly checkpointed and ancestor-closed, checkpoint funds == net flow of checkpointed vertices, re-submission refused with unchanged snapshot, twin accepts what A creates; non-trivial = at least one spice-transfer vertex was moved to storage; distinct by operation-log fingerprint")
 	sim.Chdir(workDir(t))
+	if shard() == 0 || (thorough() && shard() < 4) {
+		c07RealTrigger(t, st)
+	}
 	caseNo := 0
 	rapid.Check(t, func(rt *rapid.T) {
 		if worldsMade >= maxWorlds() {
